@@ -214,6 +214,36 @@ def worker(case):
         nq += 1
         if r:
             probs.append(("equal-netlists-rejected:pins-reattached:%s:%s" % (tag, r), "netlist vs a clone whose wires list the same pins in reverse order"))
+        # a copy edited and un-edited: every one-pin port widened by a pin and narrowed again is what it was
+        g = a.clone()
+        undone = 0
+        for l in g.libraries:
+            for df in l.definitions:
+                for pt in df.ports:
+                    if len(pt.pins) == 1:
+                        pt.remove_pin(pt.create_pin())
+                        undone += 1
+                for cb in df.cables:
+                    if len(cb.wires) == 1:
+                        cb.remove_wire(cb.create_wire())
+                        undone += 1
+        r = compare(a, g)
+        nq += 1
+        if r:
+            probs.append(("equal-netlists-rejected:widened-then-narrowed:%s:%s" % (tag, r), "%d one-bit ports / cables of a clone gained a bit and lost it again" % undone))
+        # a copy one of whose instance properties is edited in place (the usual way to re-program a LUT)
+        f = a.clone()
+        target = next((x for l in f.libraries for df in l.definitions for x in df.children if x.get("EDIF.properties")), None)
+        if target is not None:
+            pr = target["EDIF.properties"][0]
+            pr["value"] = "changed" if pr["value"] != "changed" else "changed2"
+            nq += 1
+            if compare(a, f) is None:
+                probs.append(("difference-accepted:property-edited-in-place-on-a-clone:%s" % tag, "instance %s, property %s" % (target.name, pr.get("identifier"))))
+            # (undo is not needed: a is not used with f again, but the original must not have been edited through the copy)
+            orig = next((x for l in a.libraries for df in l.definitions for x in df.children if x.get("EDIF.properties")), None)
+            if orig is not None and orig["EDIF.properties"][0]["value"] == pr["value"]:
+                probs.append(("difference-accepted:clone-shares-properties-with-original:%s" % tag, "the edit of the clone's property shows on the original"))
         # ... and after edits that were *refused* on one side (a rename to a sibling's name, in every scope)
         e = a.clone()
         refused = 0
